@@ -68,8 +68,8 @@ Definition expected_rich (ign : bool) : option XmlNs.enode :=
   expected_of conv_c05 (EventGen.generate ign conv_c05 u_rich o_rich).
 
 Example real_events_read_rich :
-  (match expected_rich false with Some e => reads_b e pevs_rich_native_indent | None => false end) = true
-  /\ (match expected_rich true with Some e => reads_b e pevs_rich_lxml | None => false end) = true.
+  (match expected_rich false with Some e => reads_b true e pevs_rich_native_indent | None => false end) = true
+  /\ (match expected_rich true with Some e => reads_b true e pevs_rich_lxml | None => false end) = true.
 Proof. split; vm_compute; reflexivity. Qed.
 
 (* ... and is parsed back to the instance (the theorem's conclusion, computed) *)
@@ -167,7 +167,7 @@ Definition expected_qn : option XmlNs.enode :=
    LxmlEventWriter read as the expected tree (every QName through the prefix map of its own start
    event) and are parsed back *)
 Example real_events_qn :
-  (match expected_qn with Some e => reads_b e pevs_qn | None => false end) = true
+  (match expected_qn with Some e => reads_b true e pevs_qn | None => false end) = true
   /\ Parser.parse cfg_strict conv_c05 u_qn (Some root_qn) pevs_qn = Parser.Ok o_qn [].
 Proof. split; vm_compute; reflexivity. Qed.
 
@@ -179,7 +179,7 @@ Proof. split; vm_compute; reflexivity. Qed.
 Theorem qname_default_ns_refuted :
   wf_model u_qn root_qn = true
   /\ fits conv_c05 u_qn ok_c05 py_isspace 2 root_qn o_qn = true
-  /\ (match expected_qn with Some e => reads_b e pevs_qn_default | None => true end) = false
+  /\ (match expected_qn with Some e => reads_b true e pevs_qn_default | None => true end) = false
   /\ ParserCorr.outcome_eqb (Parser.parse cfg_strict conv_c05 u_qn (Some root_qn) pevs_qn_default) (Parser.Ok o_qn []) = false
   /\ has_local_qname o_qn = true.
 Proof. repeat split; vm_compute; reflexivity. Qed.
@@ -193,7 +193,7 @@ Proof. repeat split; vm_compute; reflexivity. Qed.
 
 Example real_events_tree :
   (match expected_of conv_c05 (EventGen.generate false conv_c05 u_tree o_tree) with
-   | Some e => reads_b e pevs_tree | None => false end) = true
+   | Some e => reads_b true e pevs_tree | None => false end) = true
   /\ Parser.parse cfg_strict conv_c05 u_tree (Some root_tree) pevs_tree = Parser.Ok o_tree []
   /\ Parser.parse cfg_strict conv_c05 u_tree (Some root_tree)
        (pump (expected_of conv_c05 (EventGen.generate false conv_c05 u_tree o_tree))) = Parser.Ok o_tree [].
@@ -210,8 +210,8 @@ Definition expected_inh : option XmlNs.enode :=
   expected_of conv_c05 (EventGen.generate false conv_c05 u_inh o_inh).
 
 Example real_events_inh :
-  (match expected_inh with Some e => reads_b e pevs_inh_native | None => false end) = true
-  /\ (match expected_inh with Some e => reads_b e pevs_inh_lxml | None => false end) = true
+  (match expected_inh with Some e => reads_b true e pevs_inh_native | None => false end) = true
+  /\ (match expected_inh with Some e => reads_b true e pevs_inh_lxml | None => false end) = true
   /\ Parser.parse cfg_strict conv_c05 u_inh (Some root_inh) pevs_inh_native = Parser.Ok o_inh []
   /\ Parser.parse cfg_strict conv_c05 u_inh (Some root_inh) pevs_inh_lxml = Parser.Ok o_inh [].
 Proof. repeat split; vm_compute; reflexivity. Qed.
